@@ -25,11 +25,16 @@ def to_smt2(pc, goal) -> str:
     return s.to_smt2()
 
 
-def _z3_once(text, timeout_ms):
+def _z3_once(text, timeout_ms, ematch_only=False):
     t0 = time.time()
     try:
         s = z3.Solver()
         s.set("timeout", timeout_ms)
+        if ematch_only:
+            # second configuration of the portfolio: E-matching only (no model-based instantiation, no auto-configuration); it is
+            # incomplete for `sat`, so only its `unsat` answers are used
+            s.set("auto_config", False)
+            s.set("mbqi", False)
         s.from_string(text)
         r = s.check()
         if r == z3.unsat:
@@ -55,6 +60,11 @@ def _run_z3(args):
     r, info, secs = _z3_once(text, min(3000, timeout_ms))
     if r in ("unsat", "sat"):
         return r, info, secs, "z3"
+    if "forall" in text:
+        r1, _i1, secs1 = _z3_once(text, min(3000, timeout_ms), ematch_only=True)
+        secs += secs1
+        if r1 == "unsat":
+            return r1, "", secs, "z3"
     r2, info2, secs2 = run_cvc5(text, max(1, timeout_ms // 1000))
     if r2 == "unsat":
         return "unsat", "", secs + secs2, "cvc5"
